@@ -105,7 +105,8 @@ theorem stepCore_inv {s s' : St} {op : Op} {ev : Ev} (h : Inv s) (hcore : stepCo
   | create c ctx =>
     simp only [stepCore] at hcore
     split at hcore; · cases hcore
-    rename_i hc
+    split at hcore; · cases hcore
+    rename_i hc _
     simp only [Except.ok.injEq, Prod.mk.injEq] at hcore
     obtain ⟨rfl, -⟩ := hcore
     exact upd_other_inv h (fun e => hc (Or.inr e)) (fun e => hc (Or.inl e)) (by intro x; simp) (by intro x; simp)
